@@ -1177,8 +1177,10 @@ class Key(object):
                 if len(key) == 34 and key[-1:] == b'\x01':
                     self.compressed = True
                     key = key[:-1]
-                else:
+                elif len(key) == 33:
                     self.compressed = False
+                else:
+                    raise BKeyError("Invalid WIF key, private key must be 32 bytes optionally followed by 01")
                 key_byte = key[1:]
                 key_hex = key_byte.hex()
             else:
